@@ -55,8 +55,9 @@ Print Assumptions C01_full_where_builder_agrees.
    [frag_e2e] (Spec/Fragment.v): literals, `$`, identifiers, round groups, every prefix and
    suffix operator, every binary operator (arithmetic, bitwise, comparison, equality, `^^`,
    pair, access, `<~`, `~>`), `~~`, space lists and comma lists, `&&` `||`, conditionals
-   `?>` `!>` and `|>` else-chains.  (Nested expressions { }, side-effect blocks [ ],
-   separators and `^~` are outside: the reference parser of C02 is undefined on them.)
+   `?>` `!>` and `|>` else-chains, and nested expressions `{ body }` whose body is one
+   expression of the fragment.  (Side-effect blocks [ ], separators -- also inside { } --
+   and `^~` are outside: the reference parser of C02 is undefined on them.)
 
    The transliterated builder (Model/BuilderWL.v) run on what the transliterated parser
    (Model/Parser.v) makes of the printed tokens produces EXACTLY the program of the AST
@@ -85,25 +86,35 @@ Theorem C01_full_fragment : forall sym_hash hstate host, declines_defer hstate h
 Proof. exact full_fragment_proof. Qed.
 Print Assumptions C01_full_fragment.
 
-(* ... where the K2 class and the label condition are vacuous *)
+(* ... where the K2 class is vacuous (no side-effect blocks) *)
 Theorem C01_full_fragment_plain : forall sym_hash hstate host, declines_defer hstate host ->
   forall e vin h n v h' t,
-  frag_e2e e = true -> printable e = true -> known_K1 e = false ->
+  frag_e2e e = true -> printable e = true -> known_K1 e = false -> labels_ok e = true ->
   eval_prog sym_hash hstate host n e vin h = ODone v (h', t) ->
   reaches_built sym_hash hstate host e vin h v h' t.
 Proof. exact full_fragment_plain_proof. Qed.
 Print Assumptions C01_full_fragment_plain.
 
-(* non-vacuity: `a = (1 + 2) * -- 3 , x . y < 4 && $ ?> 5 6 |> 7` (23 constructors, mixed
-   precedences and associativities, a comma list, a space list, a group, an else-chain) is
-   in the fragment and printable; nested expressions, side-effect blocks, sequences and
-   `^~` are not in the fragment *)
+(* ... and without nested expressions (levels 0-3 of the fragment) there are no labels either *)
+Theorem C01_full_fragment_operators : forall sym_hash hstate host, declines_defer hstate host ->
+  forall e vin h n v h' t,
+  efrag 3 e = true -> printable e = true -> known_K1 e = false ->
+  eval_prog sym_hash hstate host n e vin h = ODone v (h', t) ->
+  reaches_built sym_hash hstate host e vin h v h' t.
+Proof. exact full_fragment_operators_proof. Qed.
+Print Assumptions C01_full_fragment_operators.
+
+(* non-vacuity: `a = (1 + 2) * -- 3 , x . y < 4 && $ ?> { 5 6 } ~~ |> 7` (25 constructors,
+   mixed precedences and associativities, a comma list, a space list, a group, an else-chain,
+   a nested expression labelled with the jump-table index of its body) satisfies every
+   hypothesis of C01_full_fragment; side-effect blocks, sequences (also inside { }) and `^~`
+   are not in the fragment *)
 Example C01_ex_e2e_member :
   frag_e2e demo_e2e = true /\ printable demo_e2e = true /\ Nat.leb 12 (Ast.size demo_e2e) = true /\
-  known_K1 demo_e2e = false.
+  known_K1 demo_e2e = false /\ known_K2 demo_e2e = false /\ labels_ok demo_e2e = true.
 Proof. exact demo_e2e_in_fragment. Qed.
 Example C01_ex_e2e_excludes :
-  frag_e2e (ENested 1 (ELit (LInt 1))) = false /\
+  frag_e2e (ENested 1 (ESeq Semi EValue EValue)) = false /\
   frag_e2e (ESide EValue (ELit (LInt 1))) = false /\
   frag_e2e (ESeq Semi EValue EValue) = false /\
   frag_e2e (EReapply EValue) = false.
